@@ -84,10 +84,17 @@ func Followable(c *ssa.Call, fr *Frame) *ssa.Function {
 		return nil
 	}
 	fn := c.Call.StaticCallee()
-	if fn == nil || len(fn.Blocks) == 0 || fn.Pkg == nil || fn.Pkg.Pkg == nil {
+	if fn == nil || len(fn.Blocks) == 0 {
 		return nil
 	}
-	if !strings.HasPrefix(fn.Pkg.Pkg.Path(), ModPath) {
+	// an instantiation of a generic repository function belongs to no package: its origin does
+	pk := fn.Pkg
+	if pk == nil {
+		if o := fn.Origin(); o != nil {
+			pk = o.Pkg
+		}
+	}
+	if pk == nil || pk.Pkg == nil || !strings.HasPrefix(pk.Pkg.Path(), ModPath) {
 		return nil
 	}
 	if fr.has(fn) || fr.depth() >= 4 {
@@ -649,6 +656,9 @@ func RegionOf(fn *ssa.Function, stop func(*ssa.Function) bool) []*ssa.Function {
 }
 
 func exportedFunc(f *ssa.Function) bool {
+	if o := f.Origin(); o != nil && o != f {
+		f = o
+	}
 	return f.Object() != nil && f.Object().Exported()
 }
 
